@@ -109,6 +109,43 @@ def body_reseed(h):
     return [r._seed]
 
 
+def body_sequence(h):
+    """RND(0) reports the current state after every kind of operation (RND, RND(0) twice, CLEAR,
+    RANDOMIZE, RND(negative)): no stale value survives a reset or reseed."""
+    vals, r, a, c, step = _rnd(h)
+    init = r._seed
+    N = h.P.basic.values.numbers
+    s = h.int('seed', 0, P24 - 1)
+    r._seed = s
+    zero = N.Single(None, vals)
+    v1 = h.call(r.rnd_, iter([None]))
+    s1 = (a * s + c) % P24
+    h.require('after-rnd-state', r._seed == s1)
+    z1 = h.call(r.rnd_, iter([zero.clone()]))
+    _check_value(h, 'rnd0-after-rnd', z1, s1)
+    h.require('rnd0-repeats-last', v1[0] == 'ok' and z1[0] == 'ok' and
+              bytes_eq(raw_of(v1[1]), raw_of(z1[1])))
+    which = h.params['then']
+    if which == 'clear':
+        r.clear()
+        want = init
+    elif which == 'randomize':
+        x = h.bytes('x', 2)
+        r.reseed(mk_num(h, vals, x))
+        want = ((a * (s1 & 0xff) + c) % P24 + s16(x) * step) % P24
+    else:
+        x = h.bytes('x', 4)
+        h.assume(s_and(x[3] != 0, x[2] >= 128))
+        h.call(r.rnd_, iter([mk_num(h, vals, x)]))
+        mant = x[0] + x[1] * 256 + x[2] * 65536
+        want = (a * mant + c) % P24
+    h.require('state-after-' + which, r._seed == want)
+    z2 = h.call(r.rnd_, iter([zero.clone()]))
+    _check_value(h, 'rnd0-after-' + which, z2, want)
+    h.require('state-unchanged-by-rnd0', r._seed == want)
+    return [raw_of(z1[1]) if z1[0] == 'ok' else None, raw_of(z2[1]) if z2[0] == 'ok' else None]
+
+
 def body_clear(h):
     vals, r, a, c, step = _rnd(h)
     init = r._seed
@@ -124,6 +161,9 @@ def cases(tier):
     cs = [Case('cycle', body_cycle), Case('clear', body_clear)]
     cs.append(Case('rnd', body_rnd, params={'mode': 'none'}, ifconvert=IFC, timeout_s=1200))
     cs.append(Case('rnd-x', body_rnd, params={'mode': 'arg'}, ifconvert=IFC, timeout_s=1200))
+    for then in ('clear', 'randomize', 'rndneg') if tier == 'thorough' else ('clear',):
+        cs.append(Case('sequence-' + then, body_sequence, params={'then': then}, ifconvert=IFC,
+                       timeout_s=2400))
     for t in 'isd':
         cs.append(Case('randomize-' + t, body_reseed, params={'type': t}))
     return cs
